@@ -105,6 +105,11 @@ func AddPrefixes(ip net.IP, n, unit uint64) (net.IP, error) {
 	// Compute `n` /`unit` subnets as uint64 pair
 	var offh, offl uint64
 	if unit <= 64 {
+		if unit < 64 && n>>unit != 0 {
+			// n /unit subnets span at least the whole address space: the
+			// shift below would silently discard the high bits of n
+			return net.IP{}, ErrOverflow
+		}
 		offh = n << (64 - unit)
 	} else {
 		offh, offl = bits.Mul64(n, 1<<(128-unit))
